@@ -344,8 +344,8 @@ def registry():
             prop="C13",
             title="lifecycle: done stable, run = step*, reload = fresh",
             batches=[
-                L.ApiEpisodes("api", 3500, 60000),
-                L.UiEpisodes("ui", 3000, 50000),
+                L.ApiEpisodes("api", 2300, 60000),
+                L.UiEpisodes("ui", 1900, 50000),
             ],
             design_ref="DESIGN.md §6, §7 C13",
             rule=(
@@ -374,8 +374,8 @@ def registry():
             prop="C16",
             title="inspection is pure",
             batches=[
-                L.ApiEpisodes("api-inspect", 3500, 60000, flavour="inspect"),
-                L.UiEpisodes("ui", 2500, 40000),
+                L.ApiEpisodes("api-inspect", 2300, 60000, flavour="inspect"),
+                L.UiEpisodes("ui", 1600, 40000),
             ],
             design_ref="DESIGN.md §6, §7 C16",
             rule=(
@@ -398,8 +398,8 @@ def registry():
             prop="C20",
             title="TOY whole steps == half-cycle steps",
             batches=[
-                L.ApiEpisodes("api-toy-halfsteps", 5000, 90000, isa="toy", flavour="halfsteps"),
-                L.UiEpisodes("ui-toy", 2000, 30000, isa="toy"),
+                L.ApiEpisodes("api-toy-halfsteps", 4000, 90000, isa="toy", flavour="halfsteps"),
+                L.UiEpisodes("ui-toy", 1600, 30000, isa="toy"),
             ],
             design_ref="DESIGN.md §6, §7 C20",
             rule=(
